@@ -1732,6 +1732,13 @@ namespace awkward {
       return shallow_copy();
     }
 
+    if (offsets_.getitem_at_nowrap(0) != 0) {
+      ContentPtr next = toListOffsetArray64(true);
+      return next.get()->sort_next(
+          negaxis, starts, parents, outlength, ascending, stable
+      );
+    }
+
     std::pair<bool, int64_t> branchdepth = branch_depth();
 
     if (parameter_equals("__array__", "\"string\"")  ||
@@ -1914,6 +1921,13 @@ namespace awkward {
                                            bool stable) const {
     if (length() == 0 ) {
      return shallow_copy();
+    }
+
+    if (offsets_.getitem_at_nowrap(0) != 0) {
+      ContentPtr next = toListOffsetArray64(true);
+      return next.get()->argsort_next(
+          negaxis, starts, shifts, parents, outlength, ascending, stable
+      );
     }
 
     std::pair<bool, int64_t> branchdepth = branch_depth();
